@@ -6,7 +6,7 @@ Import ListNotations.
 Open Scope string_scope.
 
 (* prefix code: 0 Skip | 1 Seq a b | 2 Print t | 3 PrintExc | 4 Throw t | 5 BuiltinFail | 6 Try hc hf b [c] [f]
-   | 7 Loop n b | 8 IfIter k s | 9 Break | 10 Continue | 11 Return t | 12 Call g ; one group per function *)
+   | 7 Loop n b | 8 IfIter k s | 9 Break | 10 Continue | 11 Return t | 12 Call g | 13 NativeFail ; one group per function *)
 Fixpoint parse_stmt (fuel : nat) (l : list nat) : option (stmt * list nat) :=
   match fuel with
   | 0 => None
@@ -43,6 +43,7 @@ Fixpoint parse_stmt (fuel : nat) (l : list nat) : option (stmt * list nat) :=
       | 10 :: r => Some (Continue, r)
       | 11 :: t :: r => Some (Return t, r)
       | 12 :: g :: r => Some (Call g, r)
+      | 13 :: r => Some (NativeFail, r)
       | _ => None
       end
   end.
@@ -59,6 +60,7 @@ Definition show_val (v : val) : string :=
   | VNum n => show_nat n
   | VNil => "nil"
   | VErr => "TypeError"
+  | VValErr => "ValueError"
   | VOvf => "IndexError"
   | VBool b => show_bool b
   | VFn g => "f" ++ show_nat g
@@ -83,23 +85,31 @@ Definition cfg_of (n : nat) : cfg :=
   match n with
   | 1 => cfg_old_catch_pops
   | 2 => cfg_old_break
+  | 3 => cfg_flag_at_sites_but_native
   | _ => cfg_today
   end.
 
+(* the configuration the translator read from the sources, handed over by the plug-in (gen/manifest.json) *)
+Definition cfg_flags (cp bp rj : bool) (mode : nat) (ts vs ns : bool) : cfg :=
+  {| catch_emits_pop := cp; break_pops_handlers := bp; return_uses_jump_finally := rj;
+     unwind_he := match mode with 0 => HeAssign | 1 => HeAssignNeg | 2 => HeClearOnCatch | _ => HeKeep end;
+     throw_sets_he := ts; vmfail_sets_he := vs; nativefail_sets_he := ns |}.
+
 (* wf # class # spec # M *)
-Definition c08_case (w : string) : string :=
+Definition c08_case_k (K : cfg) (w : string) : string :=
   let p := parse_prog w in
   show_bool (wf_prog p) ++ "#"
   ++ match in_known_class p with Some c => cls_name c | None => "-" end ++ "#"
   ++ show_result (eval_spec p spec_fuel) ++ "#"
-  ++ show_result (run_m cfg_today p m_fuel).
+  ++ show_result (run_m K p m_fuel).
+Definition c08_case (w : string) : string := c08_case_k cfg_today w.
 Definition c08_render (w : string) : string := render (parse_prog w).
 Definition c08_m_cfg (k : nat) (w : string) : string := show_result (run_m (cfg_of k) (parse_prog w) m_fuel).
 
 (* ---- per-step trace of the Mechanism: state BEFORE each instruction ---- *)
 Definition instr_name (i : instr) : string :=
   match i with
-  | IPrint _ => "Print" | IPrintLocal _ => "PrintLocal" | IFail => "Fail" | IConst _ => "Const" | INil => "Nil"
+  | IPrint _ => "Print" | IPrintLocal _ => "PrintLocal" | IFail => "Fail" | INativeFail => "NativeFail" | IConst _ => "Const" | INil => "Nil"
   | IPop => "Pop" | IThrow => "Throw" | IPushNative => "PushNative" | ICall _ => "Call" | IPrintTop => "PrintTop"
   | ILess _ _ => "Less" | IEq _ _ => "Eq" | IIncr _ => "Incr" | IJump _ => "Jump" | IJumpIfFalse _ => "JumpIfFalse"
   | ILoop _ => "Loop" | IPushExcHandler _ _ => "PushExcHandler" | IPopExcHandler => "PopExcHandler"
@@ -129,6 +139,7 @@ Fixpoint trace_run (K : cfg) (P : list (list instr)) (fuel : nat) (c : config) (
       end
   end.
 
-Definition c08_trace (limit : nat) (w : string) : string :=
+Definition c08_trace_k (K : cfg) (limit : nat) (w : string) : string :=
   let p := parse_prog w in
-  show_sep " " (fun x => x) (trace_run cfg_today (compile_prog cfg_today p) limit (inl (init_state p)) []).
+  show_sep " " (fun x => x) (trace_run K (compile_prog K p) limit (inl (init_state p)) []).
+Definition c08_trace (limit : nat) (w : string) : string := c08_trace_k cfg_today limit w.
